@@ -57,6 +57,9 @@ def pd_key(d):
     else:
         if len(d["expected"]) != len(d["got"]):
             where = "number-of-runs"
+        elif any(e.get("res") != g.get("res") or e.get("lastact") != g.get("lastact") for e, g in zip(d["expected"], d["got"])):
+            # same paths, but a run holds other results than its routers prescribe (category of the last visit of each node)
+            where = "saved-results"
     return f"PathAsPrescribed call={d['op']}({d['kind']}) first-difference={where} expected-status={d['expected_status']} got-status={d['got_status']}"
 
 
@@ -158,7 +161,7 @@ def run(ctx):
         case = dict(behaviour=beh, pred="C07.PathAsPrescribed", line=p)
         if key not in known and key not in rerun_session(ctx, case):
             raise vlib.Infra(f"path difference {key} from {p['src']} did not reproduce in a fresh process")
-        ctx.violation(key, f"C07.PathAsPrescribed: after call {p['call']} {p['op']}({p['kind']}, answer {p['choice']}) of {p['src']} the runs took "
+        ctx.violation(key, f"C07.PathAsPrescribed: (paths and saved results) after call {p['call']} {p['op']}({p['kind']}, answer {p['choice']}) of {p['src']} the runs took "
                            f"{json.dumps(p['got'])} where the definition prescribes {json.dumps(p['expected'])}", case)
     all_lines = open(tracefile).read().splitlines()
     cov = dict(session_behaviours_replayed=sbeh, session_calls_compared_with_prescribed_paths=scalls, session_path_differences=len(pd_by_key),
